@@ -436,6 +436,7 @@ type Report struct {
 	GoStmts         int
 	MaxPathSteps    int64
 	IntrinsicsUsed  []string
+	FeasUnknown     int
 	PanicViolations []string
 	Notes           map[string]int // Note label -> paths on which it can fail
 }
@@ -616,7 +617,10 @@ func (x *exploration) merge(w *Worker, sum PathSummary, ps *pathState) {
 		x.addInconclusive("engine error: " + sum.Detail)
 	}
 	if sum.Unknowns > 0 {
-		x.addInconclusive("solver answered unknown on a feasibility query (both branches kept)")
+		// both branches were kept: exploring a possibly infeasible path cannot
+		// turn a violation into "held"; a counterexample from such a path would
+		// fail native replay and be reported as a mismatch. Counted, not fatal.
+		r.FeasUnknown += sum.Unknowns
 	}
 	for c := range ps.covers {
 		r.Covers[c]++
